@@ -164,27 +164,36 @@ func (f *file) asyncRead(b []byte, readAll bool, cb AsyncCallback) {
 }
 
 func (f *file) asyncReadNow(b []byte, readSoFar int, readAll bool, cb AsyncCallback) {
-	n, err := f.Read(b[readSoFar:])
-	readSoFar += n
+	for {
+		n, err := f.Read(b[readSoFar:])
+		readSoFar += n
 
-	// f is a nonblocking fd so if err == ErrWouldBlock
-	// then we need to schedule an async read.
+		// f is a nonblocking fd so if err == ErrWouldBlock
+		// then we need to schedule an async read.
 
-	if err == nil && !(readAll && readSoFar != len(b)) {
-		// If readAll == true then read fully without errors.
-		// If readAll == false then read some without errors.
-		// We are done.
-		cb(nil, readSoFar)
+		if err == nil && !(readAll && readSoFar != len(b)) {
+			// If readAll == true then read fully without errors.
+			// If readAll == false then read some without errors.
+			// We are done.
+			cb(nil, readSoFar)
+			return
+		}
+
+		if err == nil {
+			// readAll == true and the kernel gave us fewer bytes than asked for, without an error. The operation is
+			// not complete: keep reading until the buffer is full, the read would block or an error occurs.
+			continue
+		}
+
+		// handles (readAll == false) and (readAll == true && readSoFar != len(b)).
+		if err == sonicerrors.ErrWouldBlock {
+			// If readAll == true then read some without errors.
+			// We schedule an asynchronous read.
+			f.scheduleRead(readSoFar, cb)
+		} else {
+			cb(err, readSoFar)
+		}
 		return
-	}
-
-	// handles (readAll == false) and (readAll == true && readSoFar != len(b)).
-	if err == sonicerrors.ErrWouldBlock {
-		// If readAll == true then read some without errors.
-		// We schedule an asynchronous read.
-		f.scheduleRead(readSoFar, cb)
-	} else {
-		cb(err, readSoFar)
 	}
 }
 
@@ -227,21 +236,30 @@ func (f *file) asyncWrite(b []byte, writeAll bool, cb AsyncCallback) {
 }
 
 func (f *file) asyncWriteNow(b []byte, wroteSoFar int, writeAll bool, cb AsyncCallback) {
-	n, err := f.Write(b[wroteSoFar:])
-	wroteSoFar += n
+	for {
+		n, err := f.Write(b[wroteSoFar:])
+		wroteSoFar += n
 
-	if err == nil && !(writeAll && wroteSoFar != len(b)) {
-		// If writeAll == true then we wrote fully without errors.
-		// If writeAll == false then we wrote some without errors.
-		cb(nil, wroteSoFar)
+		if err == nil && !(writeAll && wroteSoFar != len(b)) {
+			// If writeAll == true then we wrote fully without errors.
+			// If writeAll == false then we wrote some without errors.
+			cb(nil, wroteSoFar)
+			return
+		}
+
+		if err == nil {
+			// writeAll == true and the kernel accepted fewer bytes than given, without an error. The operation is not
+			// complete: keep writing until everything is written, the write would block or an error occurs.
+			continue
+		}
+
+		// Handles (writeAll == false) and (writeAll == true && wroteSoFar != len(b)).
+		if err == sonicerrors.ErrWouldBlock {
+			f.scheduleWrite(wroteSoFar, cb)
+		} else {
+			cb(err, wroteSoFar)
+		}
 		return
-	}
-
-	// Handles (writeAll == false) and (writeAll == true && wroteSoFar != len(b)).
-	if err == sonicerrors.ErrWouldBlock {
-		f.scheduleWrite(wroteSoFar, cb)
-	} else {
-		cb(err, wroteSoFar)
 	}
 }
 
